@@ -8,8 +8,10 @@ src/websocket_client.rs) against spec/ClientMux.tla.
  2. impl -> spec: an adversarial scripted server (raw TCP / raw WebSocket) drives the real clients;
     caller-granularity events are validated by Trace_ClientMux, in which the reader's steps are
     silent ClientMux actions.  C04 mode: every reply order for n callers with unknown-id, duplicate
-    and id-reusing notify frames inserted, 64 callers in random order, batches.  C06 mode: each
-    fault kind at each step with 0..n calls in flight, timeouts racing the response, cancellation.
+    and id-reusing notify frames inserted, 64 callers in random order, batches, a forward_message that
+    reuses the id of a call in flight (async client).  C06 mode: each fault kind at each step with
+    0..n calls in flight, timeouts racing the response, cancellation, and a malformed frame arriving
+    while another caller is stuck writing an 8 MiB request to a peer that keeps the socket open.
 """
 import json
 import subprocess
@@ -67,6 +69,9 @@ def validate(ctx, pid_mode, runs):
             elif ev.get("ev") == "sent":
                 kindsig = "duplicate-id"
                 what = f"request id {ev.get('id')} issued twice on one connection"
+            elif ev.get("ev") == "dupreg":
+                kindsig = "duplicate-id-accepted"
+                what = f"a forward_message reusing in-flight id {ev.get('id')} was not refused (result {ev.get('cls')})"
             elif ev.get("ev") == "note":
                 kindsig = "notify-misrouted"
                 what = f"subscriber received {ev} out of order / not sent"
